@@ -28,7 +28,7 @@ EPS = 1e-9
 RETRYABLE = (0x82, 0x8d)
 FATAL = (0x81, 0x83, 0x84, 0x85, 0x86, 0x87, 0x88, 0x89, 0x8a, 0x8b, 0x8c,
          0x8e, 0x8f, 0x90, 0xff)
-TIMEOUTS = [0.02, 0.05, 0.1, 0.5, 1.0]
+TIMEOUTS = [0.02, 0.05, 0.1, 0.5, 1.0, 6.0]
 # the echo peer's replies are 26 + <=8 bytes; rig sizes its receive buffer
 # from buffer_size + 8, so only sizes whose receive length holds a whole reply
 # are used here (receive-length sizing itself belongs to C07)
@@ -319,7 +319,7 @@ class Engine(object):
             c.arg2 = t.draw(1 << 32)
             c.arg3 = t.draw(1 << 32)
             c.data = t.bytes(t.draw_small(min(self.buffer_size, 48) + 1, 0.7))
-            c.extra = [0.0, 0.0, 0.0, 0.05, 0.3][t.draw(5)]
+            c.extra = [0.0, 0.0, 0.0, 0.05, 0.3, 5.0][t.draw(6)]
         c.timeout = self.timeout + c.extra
         c.tx_clock = []
         c.seq = None
